@@ -21,7 +21,7 @@ FIRST_WORDS = ["evaluate", "reflect", "dynamic", "no", "default", "exit", "fragm
 class BuildMachine(Machine):
     name = "M-BUILD"
     PROPS = ("C12",)
-    QUICK_RUNS = {"C12": 8000}
+    QUICK_RUNS = {"C12": 5000}
     THOROUGH_BUDGET_S = 600
     RULE = (
         "one evaluation = one seeded history of 1-6 constructions (Acl / AceGroup / AddrGroup from "
